@@ -1028,6 +1028,9 @@ func (t *Tree) ShuffleTips() {
 	tips := t.Tips()
 	names := t.AllTipNames()
 	permutation := rand.Perm(len(names))
+	for _, p := range permutation {
+		verifDraw("shuffletips", len(names), p)
+	}
 
 	for i, p := range permutation {
 		tips[i].SetName(names[p])
